@@ -185,9 +185,10 @@ ChkSeek(s,F,k,e,flen) ==
              THEN {"RejectedSeekLeavesPosition"} ELSE {}))
 
 LapLen(s,F,e) ==   \* half a short block of the old and of the new link, whichever is smaller, in returned samples
-  LET lo == IF e.cur0 + 1 \in 1..F.nl THEN e.cur0 + 1          \* the link the handle was decoding (at a link end: the one that ends there)
-            ELSE IF s.pos >= 0 THEN LinkOf(F, s.pos) ELSE LinkOf(F, 0)
-      ln == IF e.tell >= 0 THEN LinkOf(F, e.tell) ELSE lo
+  LET ln == IF e.tell >= 0 THEN LinkOf(F, e.tell) ELSE 1
+      lo == IF e.rs0 < STREAMSET THEN ln                         \* no decode state: the old side is whatever the stream cursor meets; at most the new half block
+            ELSE IF e.cur0 + 1 \in 1..F.nl THEN e.cur0 + 1      \* the link the handle was decoding (at a link end: the one that ends there)
+            ELSE IF s.pos >= 0 THEN LinkOf(F, s.pos) ELSE ln
   IN Min({Shr(F.links[lo].bs0, s.hs), Shr(F.links[ln].bs0, s.hs)}) \div 2
 
 NxtSeek(s,F,k,e,flen) ==
